@@ -2,7 +2,7 @@
 import math
 from ..core import f2b, b2f, run_harness, run_driver
 from ..cmp import bits_close
-from .. import samples as S
+from .. import samples as S, sample_checks as SC
 
 MODULE = "Momtrop.Props.C12Mono"
 THEOREMS = ["Momtrop.C12.wrapper_ok_pos_finite", "Momtrop.C12.wrapper_err_otherwise", "Momtrop.C12.wrapper_ok_is_impl", "Momtrop.C12.schroeder_exit", "Momtrop.C12.converged_residual", "Momtrop.C12.exit_total", "Momtrop.C12.monotone_up_to_tol", "Momtrop.C12.cdf_of_quantile_almost_monotone"]
@@ -149,15 +149,47 @@ def run(ctx):
         routing = S.make_routing(ctx.rng, c, "fundamental")
         small_dod = float(c["dod"]) < 0.2
         near_one = abs(float(c["dod"]) - 1) < 1e-6
-        for kind in ("uniform", "uniform", "corner", "edge1") + (("lambda_grid",) * 40 if small_dod else ()) + (("lambda_edge",) * 8 if near_one else ()):
-            xs = S.point(ctx.rng, b["numVars"], "uniform" if kind in ("lambda_grid", "lambda_edge") else kind)
+        for kind in ("uniform", "uniform", "corner", "edge1") + (("lambda_grid",) * 40 + ("lambda_tiny",) * 6 if small_dod else ()) + (("lambda_edge",) * 8 if near_one else ()):
+            xs = S.point(ctx.rng, b["numVars"], "uniform" if kind in ("lambda_grid", "lambda_edge", "lambda_tiny") else kind)
+            if kind == "lambda_tiny":
+                # quantiles in the SUBNORMAL range (dod ~ 0.05..0.09, coordinate ~1e-16): a positive finite lambda, used as it is
+                xs[2 * len(c["edges"]) - 2] = ctx.rng.choice([2.0 ** -53, 2.0 ** -52, 3e-16, 1e-15, 2.0 ** -51])
             if kind == "lambda_edge":
                 xs[2 * len(c["edges"]) - 2] = ctx.rng.choice([0.0, 5e-324, 2.0 ** -55, 1e-17, 2.0 ** -54, 2.0 ** -53, 1e-300])
             if kind == "lambda_grid":
                 xs[2 * len(c["edges"]) - 2] = ctx.rng.choice([ctx.rng.random(), ctx.rng.random() ** 3, 0.125, 0.25, 0.0625, 1e-3, 9.25e-4, 0.5])
             ss.append(dict(case=c, routing=routing, table=b["table"], built=b, xs=xs, kind=kind, group=None,
                            req=S.sample_request(c, routing, b["table"], xs)))
+    # a wider scalar type: a lambda coordinate below 1 in double-double that rounds to 1.0 in f64 is narrowed to 1.0 by the draw - no finite
+    # quantile exists for it, so the sample must report GammaError (never carry an infinite or NaN lambda as a value)
+    ddreq, ddinfo = [], []
+    for s in ss:
+        nE = len(s["case"]["edges"])
+        if s.get("kind") in ("lambda_edge", "lambda_grid") or abs(float(s["case"]["dod"]) - 1) < 1e-6:
+            for hi, lo in ((1.0, -2.0 ** -60), (1.0, -1e-30), (1 - 2.0 ** -53, 2.0 ** -56)):
+                xs = list(s["xs"]); xs[2 * nE - 2] = hi
+                xlo = [0.0] * len(xs); xlo[2 * nE - 2] = lo
+                rq = dict(S.sample_request(s["case"], s["routing"], s["table"], xs, debug=False, meta=True), op="sample_dd", x_lo=[f2b(v) for v in xlo])
+                rq.pop("api_graph", None)
+                ddreq.append(rq); ddinfo.append((s, hi, lo))
+            if len(ddreq) > (60 if ctx.quick else 400):
+                break
+    for rq, d, (s, hi, lo) in zip(ddreq, run_harness(ddreq), ddinfo):
+        ctx.evaluations += 1; ctx.count(f"dd_lambda.{d.get('status')}")
+        small = dict(S.small_req(s), lambda_coordinate=[hi, lo], scalar="double-double")
+        if d.get("status") == "panic":
+            ctx.violation("sample panicked with a double-double lambda coordinate next to 1", small, observed=d.get("msg")); continue
+        if d.get("status") == "ok" and "lambda" in d:
+            lam = b2f(d["lambda"][0])
+            if not (math.isfinite(lam) and lam > 0):
+                ctx.violation(f"double-double lambda coordinate {hi!r} + {lo!r}: the sample is returned with lambda = {lam!r} (not a finite positive value) instead of GammaError",
+                              small, expected="GammaError or a finite lambda > 0", observed=lam)
+        if hi == 1.0 and d.get("status") == "ok":
+            ctx.violation(f"double-double lambda coordinate 1 - {-lo!r} (narrowed to 1.0 by the draw): a sample is returned although no finite quantile exists", small,
+                          expected="gammaerr", observed=d.get("status"))
     S.run(ss)
+    # the lambda a sample USES is the one it reports: model of the momentum formula on the implementation's own inputs (lambda from the metadata)
+    SC.corr_momenta(ctx, [s for s in ss if s.get("kind") in ("lambda_tiny", "lambda_grid", "lambda_edge")])
     greqs = []
     for s in ss:
         n = len(s["case"]["edges"])
